@@ -30,8 +30,9 @@ from .dasksim import DaskSim
 PROP = "C05"
 RULE = (
     "each run draws an image (shape from a boundary-biased set incl. narrower than a tile, single row/column, sides equal to 2^levels; axis "
-    "order YX/YXS/SYX with 1-5 samples; dtype; nodata none/value/NaN), writer options (blocksize list, compression x predictor from the probed "
-    "domain, bigtiff, stats, spill_sz, writes_per_chunk), a source chunking, a sink (file with four parts-directory placements, s3 in-process, "
+    "order YX/YXS/SYX with 1-5 samples; 12 dtypes incl. int64/uint64/float16/complex64; nodata none/value/NaN; a GeoBox in one of three CRSs, north-up or "
+    "south-up / mirrored / rotated / sheared / non-square), writer options (blocksize list, compression x predictor from the probed "
+    "domain, bigtiff, stats, spill_sz, writes_per_chunk), a source chunking (regular or irregular tuples; samples one per chunk, all in one, or in twos), a sink (file with four parts-directory placements, s3 in-process, "
     "s3 cluster-coordinated with per-task writer copies) and a DaskSim configuration (policy, K workers with line-level pre-emption inside the "
     "sinks, transport, recompute of pure layers, fusion, stalls). Non-trivial: the graph ran more than 8 tasks. Distinct: (workload, options, "
     "sink, task start order, fired faults)."
